@@ -8,25 +8,6 @@ open GB
 set_option linter.unusedSimpArgs false
 set_option linter.unusedVariables false
 
-/-! ### the grammar's abstract syntax in C03's AST -/
-
-def ISeg.c03 : ISeg → C03.VSeg
-  | .wild => .star
-  | .deep => .deep
-  | .lit l => .lit l
-
-def Seg.c03 : Seg → C03.Seg
-  | .wild => .plain .star
-  | .deep => .plain .deep
-  | .lit l => .plain (.lit l)
-  | .var p none => .var (joinWith cDot p) [.star]
-  | .var p (some is) => .var (joinWith cDot p) (is.map ISeg.c03)
-
-/-- the template a string of the (relaxed) grammar denotes, as C03 sees it: the root template "/" is the single
-    literal `eof` (types.go / compile.go: it compiles to the empty literal) -/
-def tmplC03 (t : Tmpl) : C03.Tmpl :=
-  ⟨if t.segs.isEmpty then [.plain (.lit C03.eof)] else t.segs.map Seg.c03, t.verbStr⟩
-
 theorem iseg_emb_c03 (i : ISeg) : i.emb.toVSeg = i.c03 := by cases i <;> rfl
 
 theorem seg_emb_c03 (s : Seg) : s.emb.toC03 = s.c03 := by
@@ -195,5 +176,50 @@ theorem validC_gwC03_iff (pat : Bytes) :
     have hp : gwC03 pat = some (tmplC03 t) := (gwC03_some_iff pat _).mpr ⟨t, ht, rfl⟩
     obtain ⟨P, hP, _⟩ := (C03.newPattern_compile (tmplC03 t) (tmplC03_ok t ht.1).1).1 hd
     simp [C06.validC, C06.c03Pattern, hp, hP]
+
+/-! ### routing.buildPattern -/
+
+theorem buildPatternM_eq_c03Pattern (s : Bytes) : buildPatternM s = C06.c03Pattern gwC03 s := by
+  unfold buildPatternM C06.c03Pattern gwC03
+  cases gwParse s with
+  | error e => simp [Except.toOption]
+  | ok g => simp [Except.toOption]
+
+theorem buildPatternM_of_derives (s : Bytes) (t : Tmpl) (h : DerivesRelaxed s t) :
+    buildPatternM s =
+      C03.newPattern 1 (C03.compile (tmplC03 t)).opcodes (C03.compile (tmplC03 t)).pool (C03.compile (tmplC03 t)).verb := by
+  rw [buildPatternM_eq_c03Pattern]
+  have hp : gwC03 s = some (tmplC03 t) := (gwC03_some_iff s _).mpr ⟨t, h, rfl⟩
+  simp [C06.c03Pattern, hp]
+
+theorem buildPatternM_isSome_iff (s : Bytes) :
+    (buildPatternM s).isSome = true ↔ ∃ t, DerivesRelaxed s t ∧ C03.deepCount (tmplC03 t).segs ≤ 1 := by
+  rw [buildPatternM_eq_c03Pattern]
+  exact validC_gwC03_iff s
+
+theorem validTemplateB_iff (s : Bytes) :
+    validTemplateB s = true ↔ ∃ t, DerivesRelaxed s t ∧ C03.deepCount (tmplC03 t).segs ≤ 1 := by
+  unfold validTemplateB
+  constructor
+  · intro h
+    cases hs : specParseWith true s with
+    | none => simp [hs] at h
+    | some t =>
+      simp only [hs, decide_eq_true_eq] at h
+      refine ⟨t, ?_, h⟩
+      unfold specParseWith at hs
+      cases hc : specCandidate s with
+      | none => simp [hc] at hs
+      | some t' =>
+        simp only [hc] at hs
+        by_cases hw : (t'.wfB true && t'.render == s) = true
+        · simp only [hw, if_true, Option.some.injEq] at hs
+          subst hs
+          simp only [Bool.and_eq_true, beq_iff_eq] at hw
+          exact ⟨hw.1, hw.2⟩
+        · simp [hw] at hs
+  · rintro ⟨t, ⟨hw, hr⟩, hd⟩
+    rw [← hr, specParseWith_complete true t hw]
+    simpa using hd
 
 end GB.C20
